@@ -299,8 +299,20 @@ where
 "#;
 
 const MAIN_TAIL: &str = r#"
+fn decode_eq<T>(bytes: &[u8], v: &Val) -> Option<bool>
+where
+    T: FromVal + ZvtSerializer + Debug + PartialEq,
+    encoding::Default: encoding::Encoding<T>,
+{
+    let x = T::from_val(v)?;
+    Some(matches!(T::zvt_deserialize(bytes), Ok((y, _)) if y == x))
+}
+
 struct Child;
 impl Sut for Child {
+    fn decode_eq(&mut self, key: &str, bytes: &[u8], want: &Val) -> Option<bool> {
+        guarded(|| decode_eq_raw(key, bytes, want)).ok().flatten()
+    }
     fn build(&mut self, key: &str, v: &Val) -> Option<Result<Built, String>> {
         match guarded(|| build_raw(key, v)) {
             Ok(None) => None,
@@ -375,6 +387,11 @@ pub fn emit_crate(schema: &Schema, dir: &Path, repo: &str, harness: &str, seed: 
         }
         src.push_str("        _ => panic!(\"unknown type\"),\n    }\n}\n");
     }
+    src.push_str("\nfn decode_eq_raw(key: &str, bytes: &[u8], v: &Val) -> Option<bool> {\n    match key {\n");
+    for d in schema.iter() {
+        src.push_str(&format!("        \"{}\" => decode_eq::<{}>(bytes, v),\n", d.key, d.key));
+    }
+    src.push_str("        _ => None,\n    }\n}\n");
     src.push_str("\nfn build_raw(key: &str, v: &Val) -> Option<Built> {\n    match key {\n");
     for d in schema.iter() {
         src.push_str(&format!("        \"{}\" => build::<{}>(v),\n", d.key, d.key));
